@@ -126,6 +126,12 @@ func runC02(ctx *Ctx) *Report {
 			}
 		}
 	}
+	// names that differ only by letter case (or fold to the same letter) are different names: none may vanish
+	for fi, f := range forestsUpTo(4, []string{"Makefile", "makefile", "\u212a"}) {
+		if fi%2 == 0 || ctx.Thorough {
+			add(string(spell(f, spellings[fi%len(spellings)])), "well-formed")
+		}
+	}
 	// the same stream in massive mode: verdict relation to simple mode + no silent loss (real code)
 	var mcases []Case
 	for i, c := range cases {
